@@ -151,6 +151,8 @@ def pdb_lines():
 
 
 def run(ctx):
+    from xfabsa import numeric as _NA
+    _NA.alias_rule(ctx, 'C17', ['xfab/structure.py'])
     ctx.rule("cif", "CIFread evaluated on model blocks: every field of every atom, cell, symbol, dispersion == what the core dictionary keys mean")
     ctx.rule("esd", "remove_esd: the number in front of the parenthesised uncertainty, or the whole text")
     ctx.rule("pdb", "PDBread evaluated on records laid out by the wwPDB column table: cell, symbol, SCALE matrix, atoms (B -> U)")
